@@ -173,3 +173,18 @@ impl Default for TreadMill {
         Self::new()
     }
 }
+
+#[cfg(feature = "mmtk_verif")]
+impl TreadMill {
+    /// Verification accessor (add-only): the contents of the four sets, in the order
+    /// `[from_space, to_space, collect_nursery, alloc_nursery]` (unsorted).
+    pub fn verif_sets(&self) -> [Vec<ObjectReference>; 4] {
+        let sync = self.sync.lock().unwrap();
+        [
+            sync.from_space.iter().copied().collect(),
+            sync.to_space.iter().copied().collect(),
+            sync.collect_nursery.iter().copied().collect(),
+            sync.alloc_nursery.iter().copied().collect(),
+        ]
+    }
+}
